@@ -98,7 +98,11 @@ func TestC06Rapid(t *testing.T) {
 	rec := evid.For("C06")
 	runRapid(t, 600, 15000, func(rt *rapid.T) {
 		c := rec.Begin()
-		tc := newTwoChain(tcOpts{nExecutors: rapid.IntRange(1, 3).Draw(rt, "executors"), otherFirst: rapid.IntRange(0, 1).Draw(rt, "otherFirst")})
+		tc := newTwoChain(tcOpts{nExecutors: rapid.IntRange(1, 3).Draw(rt, "executors"), otherFirst: rapid.IntRange(0, 1).Draw(rt, "otherFirst"),
+			fromGenesis: rapid.Bool().Draw(rt, "fromGenesis")})
+		if tc.opts.fromGenesis {
+			c.Class("l2-started-from-default-genesis")
+		}
 		stranger := henv.MakeUser("c06-stranger")
 		nd := rapid.IntRange(1, 6).Draw(rt, "deposits")
 		var pend []*pendingDeposit
@@ -136,7 +140,11 @@ func TestC06Rapid(t *testing.T) {
 		sawDup, sawGap := false, false
 		shape := ""
 		repeatSteps(rt, 30, func(i int) {
-			switch drawWeighted(rt, "op", []weighted{{"deliver", 8}, {"transfer", 1}, {"withdraw", 1}}) {
+			switch drawWeighted(rt, "op", []weighted{{"deliver", 16}, {"transfer", 2}, {"withdraw", 2}, {"restart", 1}}) {
+			case "restart":
+				// the L2 is exported and restarted from that genesis in the middle of the schedule
+				tc.restartL2()
+				c.Class("genesis-round-trip-inside-schedule")
 			case "deliver":
 				var seq uint64
 				switch drawWeighted(rt, "seqkind", []weighted{{"next", 8}, {"stale", 5}, {"ahead", 3}, {"any", 2}}) {
